@@ -70,6 +70,41 @@ def expect_raise(c: Ctx, name, thunk, exc_type=None, kind='post'):
     raise PathEnd()
 
 
+def run_until(it, func, pattern, thunk, occurrence=1, stop_at=()):
+    """Run ``thunk()`` until execution is about to execute the ``occurrence``-th statement of function ``func`` (a Func) whose source text
+    starts with ``pattern`` (intermediate assertion point).  -> the environment of that frame (``env.lookup(name)``), or None when the
+    statement was not reached on this path.  The statement is found in the real source on every run."""
+    import ast as _ast
+    from .interp import CutPoint
+    found = []
+    for node in _ast.walk(func.node):
+        if isinstance(node, _ast.stmt) and _ast.unparse(node).startswith(pattern):
+            found.append(node)
+    found.sort(key=lambda n: (n.lineno, n.col_offset))
+    if len(found) < occurrence:
+        raise Unsupported(f'cut point {pattern!r} (occurrence {occurrence}) not found in {func.qualname}')
+    target = found[occurrence - 1]
+    stops = []
+    for pat in stop_at:      # statements after which nothing of interest happens on this path: stop there, the target was not reached
+        hits = [n for n in _ast.walk(func.node) if isinstance(n, _ast.stmt) and _ast.unparse(n).startswith(pat)]
+        if not hits:
+            raise Unsupported(f'stop point {pat!r} not found in {func.qualname}')
+        stops.append(min(hits, key=lambda n: (n.lineno, n.col_offset)))
+    it.cut_points.extend([target] + stops)
+    try:
+        thunk()
+    except CutPoint as cp:
+        if cp.st is target:
+            return cp.env
+        if any(cp.st is s_ for s_ in stops):
+            return None
+        raise
+    finally:
+        for n in [target] + stops:
+            it.cut_points.remove(n)
+    return None
+
+
 def outcome(thunk):
     """-> ('return', value) | ('raise', ExcObj)"""
     try:
@@ -126,8 +161,12 @@ def _sym_array(c: Ctx, name, shape, kind='V', dtype=None):
 
 
 def sym_size(c: Ctx, name, lo=0):
+    """an extent: any integer from ``lo`` up to 2**31 - 2 (A-INT32-EXTENTS: emsarray stores element indexes as int32 by design --
+    Mesh2DTopology.sensible_dtype -- so extents, and one-based indexes up to the extent, are taken to fit; stated, not checked)"""
     n = c.fresh_int(name)
     c.assume(n >= lo)
+    c.assume(n <= 2 ** 31 - 2)
+    c.assumptions_used.add('A-INT32-EXTENTS (every extent is below 2**31 - 1, so that element indexes fit the int32 type the code stores them in)')
     return n
 
 
